@@ -356,6 +356,7 @@ class DOK(SparseArray, NDArrayOperatorsMixin):
         )
 
     def __setitem__(self, key, value):
+        value_is_array = isinstance(value, np.ndarray)
         value = np.asarray(value, dtype=self.dtype)
 
         # the empty key addresses the whole array, it is not an empty index sequence
@@ -383,6 +384,11 @@ class DOK(SparseArray, NDArrayOperatorsMixin):
         key = normalize_index(key, self.shape)
 
         key_list = [int(k) if isinstance(k, Integral) else k for k in key]
+
+        # Like NumPy, drop extra leading axes of length one of an array (not of a nested sequence)
+        n_slices = len([ind for ind in key_list if isinstance(ind, slice)])
+        while value_is_array and value.ndim > n_slices > 0 and value.shape[0] == 1:
+            value = value[0]
 
         self._setitem(key_list, value)
 
